@@ -140,7 +140,7 @@ class AtomsEngine(Engine):
     name = 'session_atoms'
     max_ops = 50
     expected_probes = ['inplace_overwrite_other_dtype', 'alias_candidate_used', 'refused_raised', 'scribble_result',
-                       'scribble_safecopy', 'setitem_overlap', 'extend_new_props_both_sides', 'natypes_grew', 'readonly_reassign_refused', 'noncontiguous_input', 'atype_lt1_scalar_forms', 'default_constructed_object', 'types_renumbered_through_prop_atype', 'scaled_access_by_a_id', 'symbol_as_numpy_string', 'integer_typed_positions', 'atoms_df_scale_list', 'assigned_a_view_of_itself', 'view_set_through_mapping_method', 'refused_setitem_same_number_of_properties', 'refused_prop_atype_on_new_key', 'refused_system_constructor', 'refused_new_property_of_wrong_length', 'refused_value_shaped_like_one_entry', 'scaled_read_of_a_non_vector', 'atoms_df_scale_given_as_one_name', 'held_table_checked_after_edits', 'scribble_on_table',
+                       'scribble_safecopy', 'setitem_overlap', 'extend_new_props_both_sides', 'natypes_grew', 'readonly_reassign_refused', 'noncontiguous_input', 'atype_lt1_scalar_forms', 'atype_lt1_unusual_dtype', 'default_constructed_object', 'types_renumbered_through_prop_atype', 'scaled_access_by_a_id', 'symbol_as_numpy_string', 'integer_typed_positions', 'atoms_df_scale_list', 'assigned_a_view_of_itself', 'view_set_through_mapping_method', 'refused_setitem_same_number_of_properties', 'refused_prop_atype_on_new_key', 'refused_system_constructor', 'refused_new_property_of_wrong_length', 'refused_value_shaped_like_one_entry', 'scaled_read_of_a_non_vector', 'atoms_df_scale_given_as_one_name', 'held_table_checked_after_edits', 'scribble_on_table',
                        'negative_index', 'mask_index', 'scaled_write', 'prop_atype_single_new_key', 'df_checked',
                        'box_set_with_possible_sharers', 'box_alias_candidate_used']
     rule = ('Each run keeps a pool of up to 6 live Atoms/System objects (parent/child links recorded) and applies up to '
@@ -486,7 +486,10 @@ class AtomsEngine(Engine):
             # the same refusal is owed to every way of writing the whole property: full vector, one-element list,
             # bare Python int, numpy scalar, 0-d array, list form
             op.update(value=v, via=r.choice(['attr', 'view', 'prop', 'sys_prop']),
-                      form=r.choice(['full', 'full', 'len1', 'pyint', 'npint', '0d', 'list']), bad=r.choice([0, -1, -2]))
+                      form=r.choice(['full', 'full', 'len1', 'pyint', 'npint', '0d', 'list']), bad=r.choice([0, -1, -2]),
+                      # ... and to every integer-like dtype a caller's array may have: an unsigned or boolean array cannot hold a
+                      # negative type but it can hold 0 (atype - np.uint64(1) of a default-built Atoms stays unsigned)
+                      dt=r.choice(['int64', 'int64', 'uint8', 'uint32', 'uint64', 'bool', 'int8', 'int32', 'float64', 'float32']))
         elif what == 'setitem_mismatch':
             names = [nm for nm in st['reg'] if nm not in m.reg]
             extra = names[:1] if names else []
@@ -1474,6 +1477,15 @@ class AtomsEngine(Engine):
             bad = int(op.get('bad', 0))
             v = {'full': np.array(op['value']), 'list': list(op['value']), 'len1': [bad], 'pyint': bad, 'npint': np.int64(bad),
                  '0d': np.array(bad)}[form]
+            dt = op.get('dt', 'int64')
+            if dt != 'int64' and form in ('full', 'len1', 'npint', '0d'):
+                if dt[0] in 'ub':
+                    # unsigned and boolean arrays: the offending entries become 0 / False
+                    v = np.where(np.asarray(v) < 1, 0, np.asarray(v))
+                v = np.asarray(v).astype(dt)
+                if form == 'npint':
+                    v = v[()]
+                ctx.probe('atype_lt1_unusual_dtype')
             via = op['via'] if (op['via'] != 'sys_prop' or m.kind == 'system') else 'prop'
             f = {'attr': lambda: setattr(atoms, 'atype', v), 'view': lambda: atoms.view.__setitem__('atype', v),
                  'prop': lambda: atoms.prop(key='atype', value=v),
